@@ -43,6 +43,17 @@ CLAIMED = {
              "through their APIs; single reward denom in the model.",
         technique="Lean 4 proof (induction over the tally loop and over reward lists; integer floor inequalities) + differential correspondence",
         ref="§7 C12"),
+    "C11": dict(
+        text="Lean 4 theorems over an executable model of the oracle msg server (prevote, vote/reveal, DelegateFeedConsent, "
+             "ValidateFeeder, the exchange-rate string parser, period-end clearing): acceptance of a reveal as an iff (feeder authorised, "
+             "bonded, prevote present, period difference exactly 1 in uint64 arithmetic, parse ok, all pairs whitelisted, hash equal), "
+             "prevote consumed and replay refused, former delegate refused after re-delegation, period exactness for heights < 2^63, "
+             "textual binding under an injective hash, rejected messages change nothing. Tied to /repo by differential execution of "
+             "generated commit-reveal histories on the real msg server and EndBlocker.",
+        note="Trusted: Lean kernel; harness; sha256 as an injective uninterpreted function (expected hash computed by the harness with "
+             "crypto/sha256); SDK decimal parser as a parameter; staking bondedness as observed.",
+        technique="Lean 4 proof (case analysis of the handler, uint64 wrap-around arithmetic by omega) + differential correspondence",
+        ref="§7 C11"),
 }
 
 PENDING_REASON = "not claimed yet: model/proofs for this property are still being built (see DESIGN.md §9 build order)"
